@@ -141,7 +141,7 @@ def inert(s):
     from vfy.ref.grammar import COMPILED
     from vfy.ref import emphasis as E
     line = s + '\n'
-    for name in ('Heading', 'ThematicBreak', 'List', 'Quote'):
+    for name in ('Heading', 'ThematicBreak', 'List', 'Quote', 'CodeFence'):
         if COMPILED[name].match(line):
             return False
     # emphasis: the reference delimiter algorithm finds nothing
